@@ -128,6 +128,8 @@ def generate(rng, tier, index):
                     shapers[1]["ns"] = ns2
             for sp in shapers[1:]:
                 sp["target"] = copy.deepcopy(shapers[0]["target"])
+        if rng.random() < 0.35:
+            share["output_path"] = True
         if rng.random() < 0.3:
             # both Shapers read the very same rdflib.Graph object (the fresh model gets a new one)
             share["rdflib_graph"] = True
@@ -526,7 +528,8 @@ def execute(scen, scratch):
                 sh = shapers[i]
                 if i in eps:
                     sim.set_endpoint(eps[i])
-                path = sim.path("out_shaper%d.txt" % i)     # every file call of a Shaper rewrites the same path
+                # every file call of a Shaper rewrites the same path; sometimes all Shapers of the scenario take turns on one
+                path = sim.path("out_shared.txt" if scen["share"].get("output_path") else "out_shaper%d.txt" % i)
                 fault = op.get("fault")
                 fired_before = sum(sim.faults.values())
                 armed = _arm(sim, eps.get(i), fault)
